@@ -1312,3 +1312,116 @@ Proof.
   fold (latest_on sc_p (seq 0 (nclk sc_p))). rewrite <- Her, <- Hep.
   subst t_r t_p. unfold expected_ret. lia.
 Qed.
+
+(* ---------- goroutine accounting at any settled instant ---------- *)
+
+Lemma alive_le_filter : forall (P : nat -> bool) l off,
+  (forall k, (k < length l)%nat -> nth k l Done <> Done -> P (off + k)%nat = true) ->
+  (alive_p l <= length (filter P (seq off (length l))))%nat.
+Proof.
+  intros P. induction l as [|x l IH]; intros off H; simpl; [unfold alive_p; simpl; lia|].
+  assert (Hl : (alive_p l <= length (filter P (seq (S off) (length l))))%nat).
+  { apply IH. intros k Hk Hn. replace (S off + k)%nat with (off + S k)%nat by lia. apply H; simpl; auto; lia. }
+  unfold alive_p in *. simpl. destruct (is_done x) eqn:Hx; simpl.
+  - destruct (P off); simpl; lia.
+  - assert (Hp : P off = true).
+    { replace off with (off + 0)%nat by lia. apply H; simpl; [lia|]. destruct x; simpl in Hx; congruence. }
+    rewrite Hp. simpl. lia.
+Qed.
+
+(* collector returned, nothing can run, every timed event still pending lies after tp: the
+   goroutines left are covered by the clocks still running at tp *)
+Lemma alive_ok_model : forall sc s j t tp, wf sc -> reachable sc s ->
+  coll s = Ret j t -> urgent s = false -> (forall x, In x (pending sc s) -> tp < x) ->
+  C16_alive_ok sc t tp (Z.of_nat (goroutines s)) = true.
+Proof.
+  intros sc s j t tp Hwf Hr Hc Hu Hpend.
+  pose proof (invA_reachable sc s Hwf Hr) as [Hp Hm Hcol]. rewrite Hc in Hcol. destruct Hcol as [r [Hd Hal]].
+  rewrite goroutines_alive, Hc, Hd. unfold C16_alive_ok, C16_alive_bound.
+  set (W := length (filter (still_running sc tp) (seq 0 (nclk sc)))).
+  assert (HrW : (r = 0 \/ r <= W)%nat).
+  { destruct r as [|r']; [left; auto|right].
+    unfold urgent in Hu. rewrite Hc, Hd in Hu.
+    rewrite <- Hal. unfold W. rewrite <- Hp. apply alive_le_filter. intros k Hk Hn. simpl.
+    pose proof (existsb_ready_false _ Hu k) as Hnr.
+    assert (Hw : pstate s k = Working) by (unfold pstate; destruct (nth k (prods s) Done); congruence).
+    unfold still_running. destruct (ctime sc k) as [tk|] eqn:Hct; auto.
+    apply Z.ltb_lt. apply Hpend. eapply pending_work; eauto. }
+  apply Z.leb_le. rewrite Hal.
+  destruct (t <=? tp); destruct (0 <? Z.of_nat W) eqn:HW; try apply Z.ltb_lt in HW; try apply Z.ltb_ge in HW;
+    destruct r as [|r']; destruct HrW as [H0|HW']; try discriminate; lia.
+Qed.
+
+(* ---------- guard and collector composed: when the guard is released ---------- *)
+
+Inductive gc_reachable (sc : scen) (id : nat) (x0 : gc) : gc -> Prop :=
+| gcr_init : gc_reachable sc id x0 x0
+| gcr_step : forall x l x', gc_reachable sc id x0 x -> gc_step sc id x l = Some x' -> gc_reachable sc id x0 x'.
+
+Definition gc_inv (sc : scen) (id : nat) (x : gc) : Prop :=
+  reachable sc (gc_s x) /\
+  match coll (gc_s x) with
+  | Loop _ _ => g_active (gc_g x) = [id] /\ g_numops (gc_g x) = 1
+  | Ret _ t => gc_g x = {| g_numops := 0; g_active := [] |} /\ t = expected_ret sc
+  end.
+
+Lemma gc_init_spec : forall sc id g x0, ginv g -> gc_init sc id g = Some x0 -> wf sc /\ gc_inv sc id x0.
+Proof.
+  intros sc id g x0 Hg Hi. unfold gc_init in Hi.
+  destruct (gstep g (GCall id (length (s_ms0 sc)) (nclk sc))) as [g' out] eqn:Hs.
+  destruct out as [[| |]| | |]; try discriminate. inversion Hi; subst x0. clear Hi.
+  assert (Hsnd : snd (gstep g (GCall id (length (s_ms0 sc)) (nclk sc))) = GO_call Started) by (rewrite Hs; auto).
+  destruct (guard_active g id _ _ Hg Hsnd) as [Ha [Ha' Hab]]. rewrite Hs in Ha'. simpl in Ha'.
+  split; [exact Hab|]. split; simpl; [constructor|]. split; auto.
+  pose proof (ginv_step g (GCall id (length (s_ms0 sc)) (nclk sc)) Hg) as [Hg' _]. rewrite Hs in Hg'. simpl in Hg'.
+  destruct Hg' as [[He _]|[y [_ Hn]]]; [congruence|auto].
+Qed.
+
+Lemma gc_inv_step : forall sc id x l x', wf sc -> gc_inv sc id x -> gc_step sc id x l = Some x' -> gc_inv sc id x'.
+Proof.
+  intros sc id x l x' Hwf [Hr Hc] Hs. unfold gc_step in Hs.
+  destruct (step sc (gc_s x) l) as [s'|] eqn:Hst; try discriminate. inversion Hs; subst x'. clear Hs.
+  assert (Hr' : reachable sc s') by (eapply r_step; eauto).
+  split; simpl; auto.
+  pose proof (deadline_respected sc s' Hwf Hr') as Hd.
+  pose proof (step_inv _ _ _ _ Hst) as Hsp.
+  destruct Hsp as [k t Hk Hct Hto | Hcn Hto | k i j Hco Hi Hk | i j Hco Hi Hca | i j Hco Hi | k r Hdr Hk];
+    cbn [gc_g gc_s coll] in *.
+  - exact Hc.
+  - exact Hc.
+  - rewrite Hco in Hc. exact Hc.
+  - rewrite Hco in Hc. destruct Hc as [Ha Hn]. destruct Hd as [_ Hd]. split; auto.
+    rewrite Ha, Hn. simpl. rewrite ?Nat.eqb_refl. simpl. rewrite ?Nat.eqb_refl. reflexivity.
+  - rewrite Hco in Hc. destruct Hc as [Ha Hn]. destruct Hd as [_ Hd]. split; auto.
+    rewrite Ha, Hn. simpl. rewrite ?Nat.eqb_refl. simpl. rewrite ?Nat.eqb_refl. reflexivity.
+  - exact Hc.
+Qed.
+
+(* From the moment a call is let in: the collector object counts one call in progress exactly
+   while the collector loops, and the count is back to 0 from the instant the collector returns,
+   which is min(deadline, completion of the last clock). *)
+Lemma guard_released_at_return : forall sc id g x0 x, ginv g -> gc_init sc id g = Some x0 ->
+  gc_reachable sc id x0 x -> wf sc /\ gc_inv sc id x.
+Proof.
+  intros sc id g x0 x Hg Hi Hr. destruct (gc_init_spec sc id g x0 Hg Hi) as [Hwf H0].
+  split; auto. induction Hr; auto. eapply gc_inv_step; eauto.
+Qed.
+
+(* the count returned by collectMeasurements is the length of the front *)
+Lemma raw_ok_model : forall sc s j t, wf sc -> reachable sc s -> coll s = Ret j t ->
+  C16_raw_ok sc t j (ms s) = true.
+Proof.
+  intros sc s j t Hwf Hr Hc.
+  pose proof (deadline_respected sc s Hwf Hr) as Hd. rewrite Hc in Hd. destruct Hd as [Hd _].
+  destruct (prefix_once sc s j t Hwf Hr Hc) as [l [Hnd [Hin [Hea [Hj [Hjn Hms]]]]]].
+  pose proof (invA_reachable sc s Hwf Hr) as [_ Hlm _].
+  assert (Hlen : length (map (cres sc) (oks sc l)) = j) by (rewrite map_length; auto).
+  unfold C16_raw_ok. repeat (apply andb_true_iff; split).
+  - apply Z.leb_le; auto.
+  - apply Nat.eqb_eq. rewrite Hlm. symmetry. exact Hwf.
+  - apply Nat.leb_le. rewrite Hlm. auto.
+  - rewrite Hms. rewrite skipn_app. rewrite Hlen, Nat.sub_diag. simpl.
+    rewrite skipn_all2 by lia. simpl. apply meas_list_eqb_refl.
+  - rewrite Hms. rewrite firstn_app. rewrite Hlen, Nat.sub_diag. simpl. rewrite app_nil_r.
+    rewrite firstn_all2 by lia. apply front_ok_of; auto.
+Qed.
